@@ -101,11 +101,9 @@ Proof.
   - exists r. exact IH.
 Qed.
 
-Lemma detect_xml_fx marker n root head data :
-  exists b, detect_xml true marker n root head data = Ok b.
-Proof.
-  unfold detect_xml. destruct (negb _); [eauto|]. destruct head; eauto.
-Qed.
+Lemma detect_xml_fx marker n root hp hf data :
+  exists b, detect_xml true marker n root hp hf data = Ok b.
+Proof. unfold detect_xml. eauto. Qed.
 
 Lemma parse_xml_fx_strs o f :
   (forall root, exists l, f root = map Some l) ->
@@ -124,10 +122,10 @@ Proof.
   destruct (detect_pls data).
   { destruct (parse_pls_ok o data Hint) as [l E]. rewrite E. cbn. eauto. }
   unfold detect_asx, detect_xspf.
-  destruct (detect_xml_fx (lit "asx") 50 (lit "asx") (o_head50 o) data) as [b E]. rewrite E.
+  destruct (detect_xml_fx (lit "asx") 50 ASX_ROOT (o_head50 o) (o_head o) data) as [b E]. rewrite E.
   destruct b.
   { apply parse_xml_fx_strs. intros root. eauto. }
-  destruct (detect_xml_fx (lit "xspf") 150 XSPF_NS_PLAYLIST (o_head150 o) data) as [b2 E2].
+  destruct (detect_xml_fx (lit "xspf") 150 XSPF_NS_PLAYLIST (o_head150 o) (o_head o) data) as [b2 E2].
   rewrite E2. destruct b2; [|eauto].
   apply parse_xml_fx_strs. intros root. unfold xspf_tree. apply filter_some_map.
 Qed.
@@ -136,7 +134,7 @@ Qed.
 
 Definition no_int (_ : str) : option (option Z) := Some None.
 Definition o_plain (h : head_out) (x : xml_out) (ini : ini_out) (int : str -> option (option Z)) :=
-  mkOracles h h x ini int (fun _ => false).
+  mkOracles h h h x ini int (fun _ => false).
 
 Definition PLS_HDR : bytes := lit "[playlist]".
 Definition ASX_HDR : bytes := lit "<asx>".
@@ -536,16 +534,219 @@ Theorem wellformed_urilist_ascii_lemma :
     Forall ascii_line (l :: ls) ->
     match l with c :: _ => ascii_alpha c = true | [] => False end ->
     Forall (fun b => check_uri_ok o b = true) (l :: ls) ->
-    o_head50 o = HeadParseError -> o_head150 o = HeadParseError ->
+    o_head50 o = HeadParseError -> o_head150 o = HeadParseError -> o_head o = HeadParseError ->
     parse fx o (render_urilist (l :: ls)) = Ok (map Some (l :: ls)).
 Proof.
-  intros fx o l ls H Hl Hc H50 H150.
+  intros fx o l ls H Hl Hc H50 H150 Hfull.
   pose proof (wellformed_urilist_lemma fx o (map (fun b => (b, b)) (l :: ls))) as W.
   rewrite map_pair_fst, map_pair_snd in W. apply W.
   - rewrite Forall_map. eapply Forall_impl; [|exact H]. intros b. apply ascii_line_safe.
   - rewrite Forall_map. exact Hc.
   - unfold no_header. cbn [render_urilist flat_map]. rewrite <- app_assoc.
     destruct (first_alpha_no_m3u_pls l (NLb ++ flat_map (fun l0 => l0 ++ NLb) ls) Hl) as [E1 E2].
-    rewrite E1, E2. unfold detect_asx, detect_xspf, detect_xml. rewrite H50, H150.
-    repeat split; destruct (negb _); reflexivity.
+    rewrite E1, E2. unfold detect_asx, detect_xspf, detect_xml. rewrite H50, H150, Hfull.
+    repeat split; destruct fx; try reflexivity; destruct (negb _); reflexivity.
 Qed.
+
+(* ------------------------------------------------------------------ T2 without detector hypotheses *)
+
+(* After the fix the detectors look at the root element itself, so for a document whose
+   oracle outcomes are consistent (expat's first start event is the root of the tree it
+   builds) nothing about windows, declarations, comments or encodings is assumed. *)
+Theorem wellformed_xspf_full_lemma :
+  forall o data locs,
+    detect_extm3u data = false -> detect_pls data = false ->
+    o_head o = HeadTag (xtag (xspf_doc locs)) -> o_xml o = XmlTree (xspf_doc locs) ->
+    parse true o data = Ok (map Some locs).
+Proof.
+  intros o data locs H1 H2 Hh Hx. apply wellformed_xspf_lemma; auto.
+  - unfold detect_asx, detect_xml. rewrite Hh. reflexivity.
+  - unfold detect_xspf, detect_xml. rewrite Hh. reflexivity.
+Qed.
+
+Theorem wellformed_asx_full_lemma :
+  forall o data hrefs,
+    detect_extm3u data = false -> detect_pls data = false ->
+    o_head o = HeadTag (xtag (asx_doc hrefs)) -> o_xml o = XmlTree (asx_doc hrefs) ->
+    Forall (fun h => strip h = h) hrefs ->
+    parse true o data = Ok (map Some hrefs).
+Proof.
+  intros o data hrefs H1 H2 Hh Hx Hs. apply wellformed_asx_lemma; auto.
+  unfold detect_asx, detect_xml. rewrite Hh. reflexivity.
+Qed.
+
+(* The pinned prefix sniffing loses a well-formed ASX document that starts with an XML
+   declaration (the root start tag is cut off by data[0:50], so expat reports a parse
+   error for the prefix); the fixed code returns its entry. *)
+Definition ASX_DECL_DOC : bytes :=
+  lit "<?xml version='1.0' encoding='UTF-8'?><ASX version='3.0'><ENTRY><REF href='a'/></ENTRY></ASX>".
+Definition o_asx_decl : oracles :=
+  mkOracles HeadParseError (HeadTag (lit "ASX")) (HeadTag (lit "ASX")) (XmlTree (asx_doc [[97]]))
+            IniError no_int (fun _ => false).
+
+Lemma sniffing_pinned_refuted_lemma :
+  o_head o_asx_decl = HeadTag (xtag (asx_doc [[97]])) /\ o_xml o_asx_decl = XmlTree (asx_doc [[97]])
+  /\ detect_extm3u ASX_DECL_DOC = false /\ detect_pls ASX_DECL_DOC = false
+  /\ parse false o_asx_decl ASX_DECL_DOC = Ok []
+  /\ parse true o_asx_decl ASX_DECL_DOC = Ok [Some [97]].
+Proof. vm_compute. repeat split; reflexivity. Qed.
+
+(* ------------------------------------------------------------------ T2 over text (any Unicode) *)
+
+Ltac Zify.zify_post_hook ::= Z.to_euclidean_division_equations.
+
+Lemma decode_encode_cp c rest :
+  scalar c = true -> utf8_decode (utf8_encode_cp c ++ rest) = option_map (cons c) (utf8_decode rest).
+Proof.
+  intros H. unfold scalar in H. unfold utf8_encode_cp.
+  destruct (c <? 128) eqn:E1.
+  - cbn [app utf8_decode]. rewrite E1. reflexivity.
+  - destruct (c <? 2048) eqn:E2.
+    + cbn [app utf8_decode].
+      replace (192 + c / 64 <? 128) with false by lia.
+      replace (192 + c / 64 <? 194) with false by lia.
+      replace (192 + c / 64 <? 224) with true by lia.
+      unfold cont. replace ((128 <=? 128 + c mod 64) && (128 + c mod 64 <=? 191)) with true by lia.
+      replace ((192 + c / 64 - 192) * 64 + (128 + c mod 64 - 128)) with c by lia. reflexivity.
+    + destruct (c <? 65536) eqn:E3.
+      * cbn [app utf8_decode].
+        replace (224 + c / 4096 <? 128) with false by lia.
+        replace (224 + c / 4096 <? 194) with false by lia.
+        replace (224 + c / 4096 <? 224) with false by lia.
+        replace (224 + c / 4096 <? 240) with true by lia.
+        unfold cont.
+        replace ((128 <=? 128 + (c / 64) mod 64) && (128 + (c / 64) mod 64 <=? 191)) with true by lia.
+        replace ((128 <=? 128 + c mod 64) && (128 + c mod 64 <=? 191)) with true by lia.
+        replace (negb (224 + c / 4096 =? 224) || (160 <=? 128 + (c / 64) mod 64)) with true by lia.
+        replace (negb (224 + c / 4096 =? 237) || (128 + (c / 64) mod 64 <=? 159)) with true by lia.
+        cbn [andb].
+        replace ((224 + c / 4096 - 224) * 4096 + (128 + (c / 64) mod 64 - 128) * 64 + (128 + c mod 64 - 128)) with c by lia.
+        reflexivity.
+      * cbn [app utf8_decode].
+        replace (240 + c / 262144 <? 128) with false by lia.
+        replace (240 + c / 262144 <? 194) with false by lia.
+        replace (240 + c / 262144 <? 224) with false by lia.
+        replace (240 + c / 262144 <? 240) with false by lia.
+        replace (240 + c / 262144 <? 245) with true by lia.
+        unfold cont.
+        replace ((128 <=? 128 + (c / 4096) mod 64) && (128 + (c / 4096) mod 64 <=? 191)) with true by lia.
+        replace ((128 <=? 128 + (c / 64) mod 64) && (128 + (c / 64) mod 64 <=? 191)) with true by lia.
+        replace ((128 <=? 128 + c mod 64) && (128 + c mod 64 <=? 191)) with true by lia.
+        replace (negb (240 + c / 262144 =? 240) || (144 <=? 128 + (c / 4096) mod 64)) with true by lia.
+        replace (negb (240 + c / 262144 =? 244) || (128 + (c / 4096) mod 64 <=? 143)) with true by lia.
+        cbn [andb].
+        replace ((240 + c / 262144 - 240) * 262144 + (128 + (c / 4096) mod 64 - 128) * 4096
+                 + (128 + (c / 64) mod 64 - 128) * 64 + (128 + c mod 64 - 128)) with c by lia.
+        reflexivity.
+Qed.
+
+Lemma decode_encode s : forallb scalar s = true -> utf8_decode (utf8_encode s) = Some s.
+Proof.
+  induction s as [|c t IH]; [reflexivity|]. cbn [forallb]. rewrite andb_true_iff. intros [Hc Ht].
+  cbn [utf8_encode flat_map]. rewrite decode_encode_cp by exact Hc.
+  fold (utf8_encode t). rewrite IH by exact Ht. reflexivity.
+Qed.
+
+(* every byte of the encoding of c is c itself (c < 128) or >= 128 *)
+Lemma encode_cp_bytes c b :
+  scalar c = true -> In b (utf8_encode_cp c) -> (c < 128 /\ b = c) \/ 128 <= b.
+Proof.
+  intros H Hin. unfold scalar in H. unfold utf8_encode_cp in Hin.
+  destruct (c <? 128) eqn:E1; [destruct Hin as [<-|[]]; left; lia|].
+  destruct (c <? 2048) eqn:E2; [right; destruct Hin as [<-|[<-|[]]]; lia|].
+  destruct (c <? 65536) eqn:E3; right.
+  - destruct Hin as [<-|[<-|[<-|[]]]]; lia.
+  - destruct Hin as [<-|[<-|[<-|[<-|[]]]]]; lia.
+Qed.
+
+Lemma encode_cp_head c :
+  scalar c = true -> exists b rest, utf8_encode_cp c = b :: rest /\ ((c < 128 /\ b = c) \/ 192 <= b).
+Proof.
+  intros H. unfold scalar in H. unfold utf8_encode_cp.
+  destruct (c <? 128) eqn:E1; [eexists _, _; split; [reflexivity|left; lia]|].
+  destruct (c <? 2048) eqn:E2; [eexists _, _; split; [reflexivity|right; lia]|].
+  destruct (c <? 65536) eqn:E3; eexists _, _; (split; [reflexivity|right; lia]).
+Qed.
+
+Lemma lstrip_length l : (length (lstrip l) <= length l)%nat.
+Proof. induction l as [|c t IH]; cbn; [lia|]. destruct (py_isspace c); cbn; lia. Qed.
+
+Lemma strip_length l : (length (strip l) <= length (lstrip l))%nat.
+Proof.
+  unfold strip, rstrip. rewrite rev_length.
+  pose proof (lstrip_length (rev (lstrip l))). rewrite rev_length in H. exact H.
+Qed.
+
+Lemma strip_fix_head c t : strip (c :: t) = c :: t -> py_isspace c = false.
+Proof.
+  intros H. destruct (py_isspace c) eqn:E; [|reflexivity]. exfalso.
+  pose proof (strip_length (c :: t)) as H1. rewrite H in H1. cbn [lstrip] in H1. rewrite E in H1.
+  pose proof (lstrip_length t). cbn [length] in H1. lia.
+Qed.
+
+(* a line of text of a well-formed M3U / URI list: Unicode scalar values, no line break,
+   not empty, no surrounding whitespace, not a comment *)
+Definition text_line (s : str) : Prop :=
+  forallb scalar s = true
+  /\ forallb (fun c => negb ((c =? 10) || (c =? 13))) s = true
+  /\ strip s = s
+  /\ match s with c :: _ => c <> HASH | [] => False end.
+
+Lemma text_line_safe s : text_line s -> safe_line (utf8_encode s, s).
+Proof.
+  intros (Hsc & Hnl & Hst & Hh). unfold safe_line. cbn [fst snd].
+  split; [|split; [|split; [|split]]].
+  - unfold noeol. apply forallb_forall. intros b Hb. unfold utf8_encode in Hb.
+    apply in_flat_map in Hb. destruct Hb as (c & Hc & Hb).
+    rewrite forallb_forall in Hsc, Hnl. specialize (Hsc c Hc). specialize (Hnl c Hc).
+    destruct (encode_cp_bytes c b Hsc Hb) as [[_ ->]|Hge]; [exact Hnl|]. clear - Hge. lia.
+  - destruct s as [|c t]; [contradiction|].
+    apply strip_fix_head in Hst. cbn [forallb] in Hsc. apply andb_true_iff in Hsc. destruct Hsc as [Hc _].
+    destruct (encode_cp_head c Hc) as (b & rest & E & Hb).
+    cbn [utf8_encode flat_map]. rewrite E. cbn [app]. unfold b_blank. cbn [forallb].
+    replace (b_isspace b) with false; [reflexivity|].
+    unfold b_isspace. unfold py_isspace in Hst. clear - Hb Hst.
+    destruct Hb as [[Hlt ->]|Hge]; lia.
+  - destruct s as [|c t]; [contradiction|].
+    cbn [forallb] in Hsc. apply andb_true_iff in Hsc. destruct Hsc as [Hc _].
+    destruct (encode_cp_head c Hc) as (b & rest & E & Hb).
+    cbn [utf8_encode flat_map]. rewrite E. cbn [app starts_with].
+    replace (HASH =? b) with false; [reflexivity|]. unfold HASH in *. clear - Hb Hh.
+    destruct Hb as [[Hlt ->]|Hge]; lia.
+  - apply decode_encode. exact Hsc.
+  - exact Hst.
+Qed.
+
+Lemma map_enc_fst (l : list str) : map fst (map (fun s => (utf8_encode s, s)) l) = map utf8_encode l.
+Proof. induction l; cbn; [reflexivity|f_equal; auto]. Qed.
+Lemma map_enc_snd (l : list str) : map snd (map (fun s => (utf8_encode s, s)) l) = l.
+Proof. induction l; cbn; [reflexivity|f_equal; auto]. Qed.
+
+Theorem wellformed_m3u_text_lemma :
+  forall fx o (ls : list str),
+    Forall text_line ls -> parse fx o (render_m3u (map utf8_encode ls)) = Ok (map Some ls).
+Proof.
+  intros fx o ls H.
+  pose proof (wellformed_m3u_lemma fx o (map (fun s => (utf8_encode s, s)) ls)) as W.
+  rewrite map_enc_fst, map_enc_snd in W. apply W.
+  rewrite Forall_map. eapply Forall_impl; [|exact H]. intros s. apply text_line_safe.
+Qed.
+
+Theorem wellformed_urilist_text_lemma :
+  forall fx o (ls : list str),
+    Forall text_line ls -> Forall (fun s => check_uri_ok o s = true) ls ->
+    no_header fx o (render_urilist (map utf8_encode ls)) ->
+    parse fx o (render_urilist (map utf8_encode ls)) = Ok (map Some ls).
+Proof.
+  intros fx o ls H Hc Hn.
+  pose proof (wellformed_urilist_lemma fx o (map (fun s => (utf8_encode s, s)) ls)) as W.
+  rewrite map_enc_fst, map_enc_snd in W. apply W; [| |exact Hn].
+  - rewrite Forall_map. eapply Forall_impl; [|exact H]. intros s. apply text_line_safe.
+  - rewrite Forall_map. exact Hc.
+Qed.
+
+(* non-vacuity: a line with 2-, 3- and 4-byte characters *)
+Example text_line_example :
+  text_line ([99; 233; 8364; 127925; 46; 109] : str)
+  /\ utf8_encode [233; 8364; 127925] = [195; 169; 226; 130; 172; 240; 159; 142; 181].
+Proof. split; [repeat split; discriminate|reflexivity]. Qed.
